@@ -923,4 +923,99 @@ def Lazy.run (s : Lazy) : List HOp → Lazy
   | [] => s
   | o :: os => ((s.step o).1).run os
 
+/-! ### Several live iterators over one lazily evaluated result
+
+`Result.__iter__` is a generator function: its body starts at the first `next()`.  If `self._genbindings`
+is not `None` at that moment the iterator runs `for b in self._genbindings` over the ONE shared evaluator
+generator (`pending` = what that generator has not produced yet) — the loop keeps its reference even after the
+attribute has been cleared; otherwise it runs `for b in self._bindings` over the ONE shared list (`mat`; a Python
+list iterator is an index into the live list).  `attr` = "`self._genbindings` is not `None`".
+`Result.bindings` (read by `len`, `bool`, every serializer — the txt serializer then iterates, in list mode)
+extends `_bindings` in place with what the generator still holds and clears the attribute. -/
+
+inductive ItSt where
+  | fresh                 -- created by `iter(result)`, body not started
+  | gen                   -- suspended inside `for b in self._genbindings`
+  | list (idx : Nat)      -- suspended inside `for b in self._bindings`, next index to read
+  | done
+  deriving DecidableEq, Repr
+
+structure Multi where
+  mat : List Row
+  pending : List Row
+  attr : Bool
+  its : List ItSt
+  deriving Repr
+
+inductive MOp where
+  | openIt                -- `iter(result)`: a new iterator, numbered in order of creation
+  | next (i : Nat)        -- `next()` on iterator `i`
+  | force                 -- `len(r)`, `bool(r)`, `r.bindings`, `r.serialize(format=…)`
+  deriving DecidableEq, Repr
+
+inductive MOut where
+  | opened
+  | row (r : Row) (fromGen : Bool)   -- a row handed out; `fromGen` = pulled from the evaluator's generator just now
+  | stop                             -- StopIteration
+  | size (n : Nat)                   -- `len(result.bindings)`
+  | bad                              -- no such iterator
+  deriving DecidableEq, Repr
+
+/-- the `for b in self._genbindings` loop until its next `yield`: every row pulled is appended to `_bindings`,
+    rows in which nothing is bound are passed over; `none` = the generator ran dry -/
+def genStep : List Row → List Row → List Row × List Row × Option Row
+  | [], mat => (mat, [], none)
+  | b :: g, mat => if rowBound b then (mat ++ [b], g, some b) else genStep g (mat ++ [b])
+
+/-- the `for b in self._bindings` loop until its next `yield`, on the part of the list not yet read -/
+def listStep : List Row → Nat → Option (Row × Nat)
+  | [], _ => none
+  | b :: r, idx => if rowBound b then some (b, idx + 1) else listStep r (idx + 1)
+
+def setIt : List ItSt → Nat → ItSt → List ItSt
+  | [], _, _ => []
+  | _ :: r, 0, x => x :: r
+  | y :: r, i + 1, x => y :: setIt r i x
+
+def Multi.doGen (s : Multi) (i : Nat) : Multi × MOut :=
+  match genStep s.pending s.mat with
+  | (mat', p', some r) => ({ s with mat := mat', pending := p', its := setIt s.its i .gen }, .row r true)
+  | (mat', _, none) => ({ s with mat := mat', pending := [], attr := false, its := setIt s.its i .done }, .stop)
+
+def Multi.doList (s : Multi) (i idx : Nat) : Multi × MOut :=
+  match listStep (s.mat.drop idx) idx with
+  | some (r, idx') => ({ s with its := setIt s.its i (.list idx') }, .row r false)
+  | none => ({ s with its := setIt s.its i .done }, .stop)
+
+def Multi.force (s : Multi) : Multi :=
+  if s.attr then { s with mat := s.mat ++ s.pending, pending := [], attr := false } else s
+
+def Multi.step (s : Multi) : MOp → Multi × MOut
+  | .openIt => ({ s with its := s.its ++ [.fresh] }, .opened)
+  | .force => (s.force, .size s.force.mat.length)
+  | .next i =>
+    match s.its[i]? with
+    | none => (s, .bad)
+    | some .fresh => if s.attr then s.doGen i else s.doList i 0
+    | some .gen => s.doGen i
+    | some (.list idx) => s.doList i idx
+    | some .done => (s, .stop)
+
+/-- a history: final state and what each operation returned -/
+def Multi.run (s : Multi) : List MOp → Multi × List MOut
+  | [] => (s, [])
+  | o :: os =>
+    let (s', out) := s.step o
+    let (s'', outs) := s'.run os
+    (s'', out :: outs)
+
+def Multi.lazy (full : List Row) : Multi := ⟨[], full, true, []⟩
+def Multi.listed (full : List Row) : Multi := ⟨full, [], false, []⟩
+
+/-- the rows handed out by iterators reading from the generator, in the order of the history -/
+def genYields : List MOut → List Row
+  | [] => []
+  | .row r true :: os => r :: genYields os
+  | _ :: os => genYields os
+
 end RV.C16
